@@ -63,6 +63,7 @@ def run_property(pid, tier, seed, cfg):
     os.makedirs(os.path.join(OUT, 'replays'), exist_ok=True)
     report = dict(pid=pid, tier=tier, seed=seed, units=[], kani=[], obligations=[], undecided=[], bounded=[],
                   functions=[], assumptions=[], cmds=[], smt_ms=0, rule_hits={}, witness=[], vacuity=[])
+    all_obl, links = {}, {}
     try:
         # ---- Verus units
         for uname in cfg.get('verus_units', []):
@@ -103,12 +104,23 @@ def run_property(pid, tier, seed, cfg):
                     f2['discharged'] = sum(1 for o in fo if o['status'] == 'discharged')
                     f2['status'] = 'verified' if f2['obligations'] == f2['discharged'] else 'failed'
                     report['functions'].append(f2)
+            all_obl[uname] = {o['id']: o['status'] for o in r.obligations}
+            links.update({(uname, k): v for k, v in (unit.get('callee_links') or {}).items()})
             for a in r.assumption_scan:
                 s = f'[{uname}] {a}'
                 if s not in report['assumptions']:
                     report['assumptions'].append(s)
             if r.vacuity:
                 report['vacuity'].append(dict(unit=uname, **r.vacuity))
+        # ---- assumed callee contracts whose clauses are obligations of another unit: say so, and say whether those were
+        # discharged in THIS run (an annotation of the assumption list; it decides nothing)
+        for (uname, callee), targets in links.items():
+            line = f'[{uname}] external_body: {callee}'
+            if line in report['assumptions']:
+                miss = [f'[{tu}] {oid}' for (tu, oid) in targets if all_obl.get(tu, {}).get(oid) != 'discharged']
+                note = (f' -- clause for clause the contract proved elsewhere: {len(targets)} obligations of ' + ', '.join(sorted(set(tu for tu, _ in targets)))
+                        + (' discharged in this run' if not miss else f'; NOT confirmed in this run: {miss}'))
+                report['assumptions'][report['assumptions'].index(line)] = line + note
         # ---- Kani harness groups
         if cfg.get('kani'):
             from . import kani as kani_mod
